@@ -52,7 +52,7 @@ def tree_files(draw, P, M, M2):
     core_all = draw(st.sampled_from([None, None, ["alpha", "beta"], ["alpha", "beta", "gamma", "KAPPA"]]))
     init_kind = draw(st.sampled_from(["empty", "named", "star", "all", "alias", "submodule"]))
     sub_init_kind = draw(st.sampled_from(["empty", "deep", "chain"]))
-    plain_kind = draw(st.sampled_from(["reexport", "star", "own"]))
+    plain_kind = draw(st.sampled_from(["reexport", "star", "own", "own_same"]))
     return build_tree(P, M, M2, core_all, init_kind, sub_init_kind, plain_kind)
 
 
@@ -78,6 +78,9 @@ def build_tree(P, M, M2, core_all, init_kind, sub_init_kind, plain_kind):
         "reexport": f"from {P}.core import alpha, KAPPA\nfrom {P}.sub.deep import delta\n\n\ndef zeta():\n    return '{M}.zeta'\n",
         "star": f"from {P}.core import *\nfrom {P}.sub.deep import *\n\n\ndef zeta():\n    return '{M}.zeta'\n",
         "own": f"def zeta():\n    return '{M}.zeta'\n\n\ndef eta():\n    return '{M}.eta'\n",
+        # defines itself what the "reexport" layout only passes on: the same client means other objects in the two layouts
+        "own_same": (f"def alpha():\n    return '{M}.alpha'\n\n\ndef delta():\n    return '{M}.delta'\n\n\ndef zeta():\n    return '{M}.zeta'\n\n\n"
+                     f"KAPPA = ('{M}', 'KAPPA')\n"),
     }[plain_kind]
     other = (f"def alpha():\n    return '{M2}.alpha'\n\n\ndef beta():\n    return '{M2}.beta'\n\n\ndef delta():\n    return '{M2}.delta'\n\n\n"
              f"def zeta():\n    return '{M2}.zeta'\n\n\nKAPPA = ('{M2}', 'KAPPA')\n\n\ndef _private():\n    return '{M2}._private'\n\n\ndef open():\n    return '{M2}.open'\n")
